@@ -692,6 +692,295 @@ theorem exec_length {sched : List Nat} {c c' : Config σ} {log : List (Nat × Se
         have := step_size hs
         simp; omega
 
+
+/-! ### fork/join with one result slot per goroutine (fetch.go) -/
+
+/-- every action a thread will still perform -/
+def remaining : TState σ → List (Action σ)
+  | .idle rest => rest.flatMap (·.body)
+  | .inside _ _ todo rest => todo ++ rest.flatMap (·.body)
+
+/-- thread `i` only ever touches variable `i` -/
+def OwnSlot (ts : List (TState σ)) : Prop :=
+  ∀ (i : Nat) (t : TState σ), ts[i]? = some t → ∀ a ∈ remaining t, a.var = i
+
+theorem ownSlot_step {c c1 : Config σ} {k : Nat} {ev : Option (Section σ)} (ho : OwnSlot c.ts)
+    (h : step c k = some (c1, ev)) : OwnSlot c1.ts := by
+  have key : ∀ (t t' : TState σ), c.ts[k]? = some t → (∀ a ∈ remaining t', a ∈ remaining t) →
+      OwnSlot (c.ts.set k t') := by
+    intro t t' hk hsub i ti hi a ha
+    by_cases hki : k = i
+    · subst hki
+      rw [getElem?_set_self' hk] at hi; cases hi
+      exact ho k t hk a (hsub a ha)
+    · rw [getElem?_set_ne' hki] at hi
+      exact ho i ti hi a ha
+  rcases step_cases h with ⟨s, rest, hts, _, rfl, _⟩ | ⟨s, rest, m, need, hts, _, _, rfl, _⟩ |
+      ⟨held, m, need, todo, rest, hts, _, rfl, _⟩ | ⟨held, a, todo, rest, hts, rfl, _⟩ | ⟨held, rest, hts, rfl, _⟩
+  · exact key _ _ hts (fun a ha => by simpa [remaining] using ha)
+  · exact key _ _ hts (fun a ha => by simpa [remaining] using ha)
+  · exact key _ _ hts (fun a ha => by simpa [remaining] using ha)
+  · exact key _ _ hts (fun b hb => by
+      simp [remaining] at hb ⊢
+      rcases hb with hb | hb
+      · exact Or.inr (Or.inl hb)
+      · exact Or.inr (Or.inr hb))
+  · exact key _ _ hts (fun a ha => by simpa [remaining] using ha)
+
+theorem actsOn_append (v : Nat) (l1 l2 : List (Action σ)) (x : σ) :
+    actsOn v (l1 ++ l2) x = actsOn v l2 (actsOn v l1 x) := by
+  simp [actsOn, List.foldl_append]
+
+/-- the value slot `v` will have at the end: what thread `v` still has to do, applied to the
+current value (`v` beyond the thread list: nobody touches it) -/
+def slotFinal (c : Config σ) (v : Nat) : σ :=
+  match c.ts[v]? with
+  | some t => actsOn v (remaining t) (c.mem v)
+  | none => c.mem v
+
+theorem slotFinal_step {c c1 : Config σ} {k : Nat} {ev : Option (Section σ)} (ho : OwnSlot c.ts)
+    (h : step c k = some (c1, ev)) (v : Nat) : slotFinal c1 v = slotFinal c v := by
+  rcases step_cases h with ⟨s, rest, hts, _, rfl, _⟩ | ⟨s, rest, m, need, hts, _, _, rfl, _⟩ |
+      ⟨held, m, need, todo, rest, hts, _, rfl, _⟩ | ⟨held, a, todo, rest, hts, rfl, _⟩ | ⟨held, rest, hts, rfl, _⟩
+  case inr.inr.inr.inl =>
+    -- an action of thread k on its own slot
+    have hak : a.var = k := ho k _ hts a (by simp [remaining])
+    unfold slotFinal
+    by_cases hkv : k = v
+    · subst hkv
+      simp only [getElem?_set_self' hts, hts]
+      simp [remaining, actsOn_cons, hak, Mem.set]
+    · simp only [getElem?_set_ne' hkv]
+      have : Mem.set c.mem a.var (a.f (c.mem a.var)) v = c.mem v := by
+        have : ¬ v = a.var := fun e => hkv (by rw [e, hak])
+        simp [Mem.set, this]
+      simp [this]
+  all_goals
+    unfold slotFinal
+    by_cases hkv : k = v
+    · subst hkv
+      simp only [getElem?_set_self' hts, hts]
+      simp [remaining]
+    · simp only [getElem?_set_ne' hkv]
+
+theorem exec_slots {sched : List Nat} {c c' : Config σ} {log : List (Nat × Section σ)}
+    (ho : OwnSlot c.ts) (h : exec c sched = some (c', log)) (hterm : c'.terminated = true) (v : Nat) :
+    c'.mem v = slotFinal c v := by
+  induction sched generalizing c log with
+  | nil =>
+    simp [exec] at h
+    rcases h with ⟨rfl, rfl⟩
+    unfold slotFinal
+    cases ht : c.ts[v]? with
+    | none => rfl
+    | some t =>
+      have := finished_rest (terminated_getElem hterm ht)
+      cases t with
+      | idle rest => simp [restOf] at this; subst this; simp [remaining]
+      | inside _ _ _ _ => have := terminated_getElem hterm ht; simp [TState.finished] at this
+  | cons i is ih =>
+    unfold exec at h
+    split at h
+    · cases h
+    · rename_i c1 ev hs
+      split at h
+      · cases h
+      · rename_i c2 log1 he
+        cases h
+        rw [ih (ownSlot_step ho hs) he, slotFinal_step ho hs]
+
+
+/-! ### progress for programs that acquire nested locks in rank order -/
+
+def OrderedSec (rank : Nat → Nat) (s : Section σ) : Prop := s.locks.Pairwise fun a b => rank a < rank b
+
+theorem actsOn_flatMap (v : Nat) (t : List (Section σ)) (x : σ) :
+    actsOn v (t.flatMap (·.body)) x = t.foldl (fun x s => actsOn v s.body x) x := by
+  induction t generalizing x with
+  | nil => rfl
+  | cons s t ih => simp only [List.flatMap_cons, actsOn_append, List.foldl_cons, ih]
+
+def OrdT (rank : Nat → Nat) : TState σ → Prop
+  | .idle rest => ∀ s ∈ rest, OrderedSec rank s
+  | .inside held need _ rest =>
+    (∀ h ∈ held, ∀ n ∈ need, rank h < rank n) ∧ (need.Pairwise fun a b => rank a < rank b) ∧
+    ∀ s ∈ rest, OrderedSec rank s
+
+def OrdCfg (rank : Nat → Nat) (c : Config σ) : Prop :=
+  ∀ (i : Nat) (t : TState σ), c.ts[i]? = some t → OrdT rank t
+
+theorem ord_set {rank : Nat → Nat} {c : Config σ} {i : Nat} {t t' : TState σ} (hg : OrdCfg rank c)
+    (hi : c.ts[i]? = some t) (ht' : OrdT rank t') :
+    ∀ (j : Nat) (tj : TState σ), (c.ts.set i t')[j]? = some tj → OrdT rank tj := by
+  intro j tj hj
+  by_cases hji : i = j
+  · subst hji
+    rw [getElem?_set_self' hi] at hj; cases hj; exact ht'
+  · rw [getElem?_set_ne' hji] at hj; exact hg j tj hj
+
+theorem ordCfg_step {rank : Nat → Nat} {c c1 : Config σ} {i : Nat} {ev : Option (Section σ)}
+    (hg : OrdCfg rank c) (h : step c i = some (c1, ev)) : OrdCfg rank c1 := by
+  rcases step_cases h with ⟨s, rest, hts, hl, rfl, _⟩ | ⟨s, rest, m, need, hts, hl, hf, rfl, _⟩ |
+      ⟨held, m, need, todo, rest, hts, hf, rfl, _⟩ | ⟨held, a, todo, rest, hts, rfl, _⟩ | ⟨held, rest, hts, rfl, _⟩
+  · have := hg i _ hts
+    exact ord_set hg hts ⟨by simp, by simp, fun s' hs' => this s' (by simp [hs'])⟩
+  · have hgt := hg i _ hts
+    have h1 : OrderedSec rank s := hgt s (by simp)
+    unfold OrderedSec at h1
+    rw [hl, List.pairwise_cons] at h1
+    refine ord_set hg hts ⟨?_, h1.2, fun s' hs' => hgt s' (by simp [hs'])⟩
+    intro h hh n hn
+    simp at hh; subst hh
+    exact h1.1 n hn
+  · rcases hg i _ hts with ⟨h1, h2, h3⟩
+    rw [List.pairwise_cons] at h2
+    refine ord_set hg hts ⟨?_, h2.2, h3⟩
+    intro h hh n hn
+    simp at hh
+    rcases hh with rfl | hh
+    · exact h2.1 n hn
+    · exact h1 h hh n (by simp [hn])
+  · rcases hg i _ hts with ⟨h1, h2, h3⟩
+    exact ord_set hg hts ⟨h1, h2, h3⟩
+  · rcases hg i _ hts with ⟨_, _, h3⟩
+    exact ord_set hg hts h3
+
+theorem ordCfg_exec {rank : Nat → Nat} {sched : List Nat} {c c' : Config σ} {log : List (Nat × Section σ)}
+    (hg : OrdCfg rank c) (h : exec c sched = some (c', log)) : OrdCfg rank c' := by
+  induction sched generalizing c log with
+  | nil => simp [exec] at h; rcases h with ⟨rfl, _⟩; exact hg
+  | cons i is ih =>
+    unfold exec at h
+    split at h
+    · cases h
+    · rename_i c1 ev hs
+      split at h
+      · cases h
+      · rename_i c2 log1 he
+        cases h
+        exact ih (ordCfg_step hg hs) he
+
+/-- rank of the mutex a thread is waiting for -/
+def waitRank (rank : Nat → Nat) : TState σ → Nat
+  | .inside _ (m :: _) _ _ => rank m
+  | _ => 0
+
+def rankBound (rank : Nat → Nat) (ts : List (TState σ)) : Nat := (ts.map (waitRank rank)).foldl max 0
+
+theorem le_foldl_max (l : List Nat) (a x : Nat) (h : x ≤ a ∨ x ∈ l) : x ≤ l.foldl max a := by
+  induction l generalizing a with
+  | nil => simpa using h
+  | cons b l ih =>
+    simp only [List.foldl_cons]
+    apply ih
+    rcases h with h | h
+    · exact Or.inl (Nat.le_trans h (Nat.le_max_left a b))
+    · simp at h
+      rcases h with rfl | h
+      · exact Or.inl (Nat.le_max_right a x)
+      · exact Or.inr h
+
+theorem waitRank_le_bound {rank : Nat → Nat} {ts : List (TState σ)} {i : Nat} {t : TState σ}
+    (hi : ts[i]? = some t) : waitRank rank t ≤ rankBound rank ts := by
+  apply le_foldl_max
+  exact Or.inr (List.mem_map.mpr ⟨t, List.mem_of_getElem? hi, rfl⟩)
+
+/-- a thread inside a section can step, or the chain of holders it waits for ends in one that can -/
+theorem chain_progress {rank : Nat → Nat} {c : Config σ} (hg : OrdCfg rank c) :
+    ∀ (n i : Nat) (held need : List Nat) (todo : List (Action σ)) (rest : List (Section σ)),
+      c.ts[i]? = some (.inside held need todo rest) →
+      rankBound rank c.ts - waitRank rank (.inside held need todo rest : TState σ) ≤ n → canStep c = true := by
+  intro n
+  induction n with
+  | zero =>
+    intro i held need todo rest hi hn
+    cases need with
+    | nil =>
+      apply canStep_of hi
+      cases todo <;> simp [step, hi]
+    | cons m need =>
+      by_cases hf : free c.ts m = true
+      · apply canStep_of hi; simp [step, hi, hf]
+      · -- somebody holds m; that thread waits for a mutex of higher rank — impossible at the bound
+        have hf' : free c.ts m = false := by simpa using hf
+        unfold free at hf'
+        rcases List.all_eq_false.mp hf' with ⟨tj, htj, hh⟩
+        have hh : tj.holds m = true := by simpa using hh
+        rcases List.getElem?_of_mem htj with ⟨j, hj⟩
+        cases tj with
+        | idle _ => simp [TState.holds] at hh
+        | inside held' need' todo' rest' =>
+          cases need' with
+          | nil => apply canStep_of hj; cases todo' <;> simp [step, hj]
+          | cons m' need'' =>
+            have hlt : rank m < rank m' := by
+              have := (hg j _ hj).1 m (by simpa [TState.holds] using hh) m' (by simp)
+              exact this
+            have hb := waitRank_le_bound (rank := rank) hj
+            simp [waitRank] at hb hn
+            omega
+  | succ n ih =>
+    intro i held need todo rest hi hn
+    cases need with
+    | nil =>
+      apply canStep_of hi
+      cases todo <;> simp [step, hi]
+    | cons m need =>
+      by_cases hf : free c.ts m = true
+      · apply canStep_of hi; simp [step, hi, hf]
+      · have hf' : free c.ts m = false := by simpa using hf
+        unfold free at hf'
+        rcases List.all_eq_false.mp hf' with ⟨tj, htj, hh⟩
+        have hh : tj.holds m = true := by simpa using hh
+        rcases List.getElem?_of_mem htj with ⟨j, hj⟩
+        cases tj with
+        | idle _ => simp [TState.holds] at hh
+        | inside held' need' todo' rest' =>
+          cases need' with
+          | nil => apply canStep_of hj; cases todo' <;> simp [step, hj]
+          | cons m' need'' =>
+            have hlt : rank m < rank m' := by
+              have := (hg j _ hj).1 m (by simpa [TState.holds] using hh) m' (by simp)
+              exact this
+            have hb := waitRank_le_bound (rank := rank) hj
+            apply ih j held' (m' :: need'') todo' rest' hj
+            simp [waitRank] at hb hn ⊢
+            omega
+
+theorem progress_ordered {rank : Nat → Nat} {c : Config σ} (hg : OrdCfg rank c) (hnt : c.terminated = false) :
+    canStep c = true := by
+  by_cases hin : ∃ (i : Nat) (held need : List Nat) (todo : List (Action σ)) (rest : List (Section σ)),
+      c.ts[i]? = some (.inside held need todo rest)
+  · rcases hin with ⟨i, held, need, todo, rest, hi⟩
+    exact chain_progress hg _ i held need todo rest hi (Nat.le_refl _)
+  · have hidle : ∀ (j : Nat) (tj : TState σ), c.ts[j]? = some tj → ∃ rest, tj = .idle rest := by
+      intro j tj hj
+      cases tj with
+      | idle rest => exact ⟨rest, rfl⟩
+      | inside held need todo rest => exact absurd ⟨j, held, need, todo, rest, hj⟩ hin
+    have hfree : ∀ m, free c.ts m = true := by
+      intro m
+      unfold free
+      rw [List.all_eq_true]
+      intro t ht
+      rcases List.getElem?_of_mem ht with ⟨k, hk⟩
+      rcases hidle k t hk with ⟨rest, rfl⟩
+      rfl
+    have : ∃ t ∈ c.ts, t.finished = false := by
+      unfold Config.terminated at hnt
+      rcases List.all_eq_false.mp hnt with ⟨t, ht, hf⟩
+      exact ⟨t, ht, by simpa using hf⟩
+    rcases this with ⟨t, ht, hf⟩
+    rcases List.getElem?_of_mem ht with ⟨k, hk⟩
+    rcases hidle k t hk with ⟨rest, rfl⟩
+    cases rest with
+    | nil => simp [TState.finished] at hf
+    | cons s rest =>
+      apply canStep_of hk
+      cases hl : s.locks with
+      | nil => simp [step, hk, hl]
+      | cons m need => simp [step, hk, hl, hfree m]
+
 /-! ### sync.Once -/
 
 theorem once_fold_done {τ : Type} (o : Nat) (secs : List (Section (Bool × τ)))
